@@ -192,7 +192,7 @@ TEXT = {
                       "the target was seen but is not valid; C03_valid_exts_exact: get_valid_exts reports a bit iff recorded, resolved by find_link "
                       "and valid). Every reported edge is a K-1 overlap in walking orientation (edge_overlap, four orientation cases), so for "
                       "any walk along reported edges sequence_of_path spells exactly the walked nodes' k-mers in order (C03_walk_sequence); "
-                      "max_path always returns such a walk with no node twice (C03_maxPath_walk, both arms). C03_edges_symmetric: in every graph "
+                      "max_path always returns such a walk with no node twice (C03_maxPath_walk, both arms). max_path_beam (beam search, stable sort by descending score) returns a trail along reported edges that spells the k-mers of its nodes, and its loop terminates within nodes+1 rounds (C03_maxPathBeam_trail/_sequence/_terminates). C03_edges_symmetric: in every graph "
                       "satisfying the node-level invariant GInv (terminal k-mers identify node and side, extensions reciprocal, a palindromic "
                       "single-k-mer node recording them from either strand) every reported edge is reported back from the facing side, the two "
                       "sides of such a node counting as one; GInv is PROVED for every graph compress_kmers builds from a well-formed table that "
@@ -208,7 +208,7 @@ TEXT = {
                       "and is an observed (K+1)-mer; C03_observed_adjacency_recorded - conversely every observed (K+1)-mer at a node end whose "
                       "target was retained is recorded (terminal k-mers that are their own reverse complement excluded). max_path_beam is not modelled.",
         "design_ref": "DESIGN.md section 6, C03",
-        "level_note": COMMON_NOTE + "Partial: GInv / edge completeness after re-compression WITH censoring by execution (without censoring: C09_result_wellformed); max_path_beam not modelled.",
+        "level_note": COMMON_NOTE + "Partial: GInv / edge completeness after re-compression WITH censoring by execution (without censoring: C09_result_wellformed).",
         "technique": "Lean 4 proof (case analysis of link resolution, bit-level exactness of pruning, overlap algebra of walks, invariant of the greedy best-path loop) + differential correspondence with executable predicates",
     },
     "C18": {
